@@ -59,9 +59,9 @@ Definition all_same (l : list impl_res) : bool :=
 Definition is_flag (r : res (list N)) : bool :=
   match r with Panic 99 => true | _ => false end.
 
-(* class: 0 not compared with the model | 1 compared, the checked run raised the
-   schedule-sensitivity flag | 2 compared, no flag (then every schedule of the
-   model gives this very result: KMeansSched.kmeans_chk_sched_indep) *)
+(* class: 100 not compared with the model | 101 compared, the checked run raised
+   the schedule-sensitivity flag | 102 compared, no flag (then every schedule of
+   the model gives this very result: KMeansSched.kmeans_chk_sched_indep) *)
 Definition evalKM (c06 : bool) (c : caseKM) : verdict :=
   let prop02 :=
     negb (q_contract c) ||
@@ -72,11 +72,11 @@ Definition evalKM (c06 : bool) (c : caseKM) : verdict :=
   let prop06 := negb (q_exact c) || all_same (q_impls c) in
   let '(corr, cl) :=
     if q_model c then
-      let r := model_of (reds_chk F64 sum_ok_f64 val_ok_f64 T_seq P_id) c in
+      let r := model_of (reds_chk F64 sum_ok_f64 val_ok_f64 cmp_ok_f64 T_seq P_id) c in
       let flagged := is_flag r in
       let r := if flagged then model_of (reds_tree F64 T_seq P_id) c else r in
-      (forallb (res_matches r) (q_impls c), if flagged then 1%N else 2%N)
-    else (true, 0%N) in
+      (forallb (res_matches r) (q_impls c), if flagged then 101%N else 102%N)
+    else (true, 100%N) in
   {| corr_ok := corr; prop_ok := if c06 then prop06 else prop02; cls := cl |}.
 
 Definition run02km (cs : list caseKM) := report (map (evalKM false) cs).
